@@ -34,13 +34,15 @@ pub fn algo_strategy() -> impl Strategy<Value = Algo> {
 }
 
 pub fn cfg_strategy(max_cap: usize, max_shards: usize, universe: u8, pipe: bool) -> impl Strategy<Value = MemCfg> {
-    (algo_strategy(), 0..=max_cap, 1..=max_shards).prop_map(move |(algo, capacity, shards)| MemCfg {
+    // `pipe`: a recording pipe may be installed; one case in four runs with the listener only (the code paths that
+    // decide "is there anyone to notify" differ)
+    (algo_strategy(), 0..=max_cap, 1..=max_shards, prop::bool::weighted(0.75)).prop_map(move |(algo, capacity, shards, with_pipe)| MemCfg {
         algo,
         capacity,
         shards,
         hash: HashSpec::Identity,
         universe,
-        pipe,
+        pipe: pipe && with_pipe,
     })
 }
 
@@ -344,6 +346,12 @@ fn common_mem_check(check: &Check, prop: Prop, with_rejects: bool) {
     let rs_total = rs.total();
     check.add_extra_count("exhaustive_sequences", rs_total);
     check.run_exhaustive("exhaustive-resize", rs_total, |i| rs.make(i), |c| exec_mem(prop, c));
+    // (b') the same without a pipe (listener only)
+    let no_pipe: Vec<MemCfg> = small_cfgs(3, 2).into_iter().map(|mut c| { c.pipe = false; c }).collect();
+    let rs2 = ExhaustiveSpace::new(no_pipe, depth, true);
+    let rs2_total = rs2.total();
+    check.add_extra_count("exhaustive_sequences", rs2_total);
+    check.run_exhaustive("exhaustive-resize-listener-only", rs2_total, |i| rs2.make(i), |c| exec_mem(prop, c));
     // (c) one level deeper on one small configuration per algorithm
     let deep = ExhaustiveSpace::new(small_cfgs(2, 1), depth + 1, false);
     let deep_total = deep.total();
